@@ -66,8 +66,8 @@ func (w wi) desc() string {
 }
 
 func (w wi) coq() string {
-	return hv.App("IN", hv.N(uint64(w.gt)), hv.N(uint64(w.res)), hv.N(uint64(w.port)), hv.N(uint64(w.start)), hv.N(uint64(w.exp)),
-		hv.N(uint64(w.sniTy)), hv.Hex(w.sniLabel), hv.Str(w.user), certCoq(w.cert), hv.Str(w.cmd))
+	return hv.App("IN", hv.N(uint64(w.gt)), hv.N(uint64(w.res)), hv.N(uint64(w.port)), numCoq(uint64(w.start)), numCoq(uint64(w.exp)),
+		hv.N(uint64(w.sniTy)), bytesCoq(w.sniLabel), bytesCoq([]byte(w.user)), certCoq(w.cert), bytesCoq([]byte(w.cmd)))
 }
 
 // streaming decoder of an intent body (own implementation)
@@ -195,6 +195,24 @@ func fixedCerts() [][]byte {
 		out = append(out, b)
 	}
 	return out
+}
+
+
+// frequent field values have names in Corr/C06.v (keeps case files small; Coq is slow on long literals)
+var symStr = map[string]string{"target": "S1", "t.example": "S2", "t": "S3", "": "S0", "user": "S4", "root": "S5", "u2": "S6", "echo hi": "S7", "sudo reboot": "S8", "ls -la /": "S9", "echo hello world": "S10"}
+var symNum = map[uint64]string{1700000000: "T1", 1700003600: "T2", 4611686018427387907: "T3", 9223372036854775807: "T4"}
+
+func bytesCoq(b []byte) string {
+	if n, ok := symStr[string(b)]; ok {
+		return n
+	}
+	return hv.Hex(b)
+}
+func numCoq(v uint64) string {
+	if n, ok := symNum[v]; ok {
+		return n
+	}
+	return hv.N(v)
 }
 
 func certCoq(c []byte) string {
